@@ -155,7 +155,17 @@ def c16(tier):
     return c
 
 
-CHECKS = {"C16": c16, "C13": c13, "C14": c14, "C15": c15, "C05": c05, "C12": c12, "C01": c01, "C02": c02, "C03": c03, "C04": c04, "C08": c08, "C10": c10}
+def c19(tier):
+    c = _topo("C19", 19, tier, 50, 1500)
+    c.rule = ("one evaluation = one history in which replicas are written to a backing file on the simulated disk (pattern-filled, four page offsets, "
+              "harness-chosen address range with PROT_NONE guard pages) and adopted, after one injected fault (wrong address/length/offset/flags, occupied "
+              "range, flipped header byte, flipped ABI byte); the adopted replica then receives the whole op alphabet: modifying calls must be refused "
+              "with EPERM, consulting calls and allow() must work, destroy must release the range; distinct_nontrivial = distinct (canonical dump after an op, op kind) pairs")
+    c.stubbed_components = ["none: real open/write/mmap on files of the per-worker scratch directory (tmpfs)"]
+    return c
+
+
+CHECKS = {"C19": c19, "C16": c16, "C13": c13, "C14": c14, "C15": c15, "C05": c05, "C12": c12, "C01": c01, "C02": c02, "C03": c03, "C04": c04, "C08": c08, "C10": c10}
 
 
 # ------------------------------------------------------------------------------------------------ C17 (scheduler machine)
